@@ -35,6 +35,12 @@ func genConsumer(c *cf.Case, r *cf.Rng, prop string) {
 			cfg.PanicIcpt = r.Range(1, cfg.ConsInterceptors)
 		}
 	}
+	logProp := prop
+	if prop == "C18" && verAtLeast(cfg.Version, v0110) && r.Bool() {
+		// transactional logs: interceptors must not see control or aborted records
+		logProp = "C11"
+		cfg.ReadCommitted = r.Bool()
+	}
 	clusterBasic(c, r, 3, 2, 3)
 	id := 0
 	maxMagic := 0
@@ -49,7 +55,7 @@ func genConsumer(c *cf.Case, r *cf.Rng, prop string) {
 		for _, p := range t.Partitions {
 			lg := cf.Log{Topic: t.Name, Partition: p.ID}
 			lg.Magic = r.Intn(maxMagic + 1)
-			if maxMagic == 2 && r.Bool() || prop == "C11" {
+			if maxMagic == 2 && r.Bool() || logProp == "C11" {
 				lg.Magic = maxMagic
 			}
 			if r.Intn(4) == 0 {
@@ -58,7 +64,7 @@ func genConsumer(c *cf.Case, r *cf.Rng, prop string) {
 			if lg.Magic == 1 && r.Intn(4) == 0 {
 				lg.AbsInner = true
 			}
-			genLog(&lg, r, cfg, prop, &id, &lastAppend)
+			genLog(&lg, r, cfg, logProp, &id, &lastAppend)
 			c.Cluster.Logs = append(c.Cluster.Logs, lg)
 		}
 	}
